@@ -55,6 +55,7 @@ struct SimThread {
   uint32_t consecutive = 0;
   uint32_t lone_spins = 0;
   int hooks_off = 0;
+  int harness_depth = 0;  // > 0 while harness code runs on this thread: its own allocations are never failed or counted
   bool in_sim = false;
   // allocation faults
   bool armed = false, count_new = false, fired = false;
@@ -118,6 +119,16 @@ struct Global {
 
 Global g;
 thread_local SimThread* tls_self = nullptr;
+
+// The seams run harness code (ledger, owner table, event log) in the middle of library calls. What that code allocates is
+// not an allocation of the operation under test: fault injection neither counts nor fails it.
+struct HarnessScope {
+  SimThread* st;
+  HarnessScope() : st(tls_self) { if (st) st->harness_depth++; }
+  ~HarnessScope() { if (st) st->harness_depth--; }
+  HarnessScope(const HarnessScope&) = delete;
+  HarnessScope& operator=(const HarnessScope&) = delete;
+};
 
 long futex_call(std::atomic<uint32_t>* addr, int opn, uint32_t val) {
   return syscall(SYS_futex, reinterpret_cast<uint32_t*>(addr), opn, val, nullptr, nullptr, 0);
@@ -626,6 +637,7 @@ void op_end() {
 void point(int kind, const void* addr) {
   auto* st = tls_self;
   if (!st || !g.active || !st->in_sim || st->hooks_off) return;
+  HarnessScope hs;
   do_point(st, kind, addr);
 }
 
@@ -662,10 +674,15 @@ void ledger_forget_all() {
 
 // fault helper shared by the allocation seams; true = fail this allocation
 static bool alloc_should_fail(SimThread* st) {
-  if (!st || !st->in_sim || !st->armed) return false;
+  if (!st || !st->in_sim || !st->armed || st->harness_depth > 0) return false;
+  HarnessScope hs;
   st->allocs++;
   if (st->fail_at > 0 && st->allocs == st->fail_at) {
     st->fired = true;
+#ifdef SIM_ASAN
+    static const bool trace_faults = getenv("SIM_TRACE_FAULT") != nullptr;  // debugging aid: where does the failed allocation come from?
+    if (trace_faults) __sanitizer_print_stack_trace();
+#endif
     g.stats.alloc_faults++;
     g.fired.push_back({st->id, st->op, 1, st->fail_at, 0});
     return true;
@@ -684,12 +701,14 @@ extern "C" {
 void unodb_verif_point(int kind, const void* addr) noexcept {
   auto* st = tls_self;
   if (!st || !g.active || !st->in_sim || st->hooks_off) return;
+  sim::HarnessScope hs;
   sim::do_point(st, kind, addr);
 }
 
 int unodb_verif_buggify(int site) noexcept {
   auto* st = tls_self;
   if (!st || !g.active || !st->in_sim || st->hooks_off) return 0;
+  sim::HarnessScope hs;
   const int k = ++st->buggify_calls;
   if (g.explicit_sched || (g.c && g.c->knob("explicit_faults", 0))) {
     for (auto& e : st->buggify_at)
@@ -711,6 +730,7 @@ int unodb_verif_buggify(int site) noexcept {
 void unodb_verif_probe(int probe) noexcept {
   auto* st = tls_self;
   if (!st || !g.active || !st->in_sim) return;
+  sim::HarnessScope hs;
   g.stats.probes[probe & 15]++;
   g.run_probes[probe & 15]++;
   g.h.add(0xABCD0000u + static_cast<unsigned>(probe));
@@ -723,6 +743,7 @@ int __wrap_posix_memalign(void** p, size_t al, size_t sz) {
   if (sim::alloc_should_fail(st)) return ENOMEM;
   const int rc = __real_posix_memalign(p, al, sz);
   if (rc != 0 || !g.track) return rc;
+  sim::HarnessScope hs;
   sim::Block b;
   b.addr = reinterpret_cast<uintptr_t>(*p);
   b.size = sz;
@@ -743,6 +764,7 @@ void __wrap_free(void* p) {
   if (!st || !st->in_sim || g.ledger.empty()) return __real_free(p);
   auto it = g.ledger.find(reinterpret_cast<uintptr_t>(p));
   if (it == g.ledger.end()) return __real_free(p);
+  sim::HarnessScope hs;
   sim::Block& b = it->second;
   if (b.state != 0)
     sim::die("double-free", "block #" + std::to_string(b.seq) + " freed again by t" + std::to_string(st->id) +
@@ -767,6 +789,7 @@ void __wrap_free(void* p) {
 int __wrap_pthread_mutex_lock(pthread_mutex_t* m) {
   auto* st = tls_self;
   if (!st || !g.active || !st->in_sim || st->hooks_off) return __real_pthread_mutex_lock(m);
+  sim::HarnessScope hs;
   while (true) {
     sim::do_point(st, sim::K_MUTEX_LOCK, nullptr);
     auto it = g.mutex_owner.find(m);
@@ -788,6 +811,7 @@ int __wrap_pthread_mutex_unlock(pthread_mutex_t* m) {
     if (st && st->in_sim) g.mutex_owner.erase(m);
     return __real_pthread_mutex_unlock(m);
   }
+  sim::HarnessScope hs;
   const int rc = __real_pthread_mutex_unlock(m);
   g.mutex_owner.erase(m);
   for (auto& t : g.threads)
